@@ -344,6 +344,7 @@ func runC05(c *Ctx) {
 			c.verdictIf(clr, P, "dedup", "deleter="+fnKey(fn), p.pos(fn.Pos()), "also clears pathHandles", "deletes handles but leaves pathHandles entries behind: a later Allocate for that path returns a dead id")
 		}
 	}
+	runC05UnmapPaired(c)
 }
 
 func runC06(c *Ctx) {
